@@ -67,6 +67,7 @@ class WAPProtocol(HTTPProtocol):
     def getrenderstr(self, entry: GopherEntry, url: str) -> str:
         if url.startswith("/"):
             url = self.waptop + url
+        url = html.escape(url)
         retstr = ""
         if not entry.gettype() in ["i", "7"]:
             if self.accesskeyidx < len(accesskeys):
